@@ -56,7 +56,22 @@ func crashSeeds(thorough bool) []*CrashSeed {
 			}
 		}
 	}
+	// one transaction whose log records exceed the log buffer (129 pages): the record that straddles the
+	// end of the buffer, the flush in the middle of a statement and a commit whose records span two log
+	// writes. 3 800-byte rows (one per heap page, no index on the wide column), pool large enough not to evict.
+	seeds = append(seeds, &CrashSeed{Name: "huge-txn/mem4096", MemKB: 4096, Tables: []TableDef{crashHugeT},
+		Stmts: []*Stmt{{Kind: "insert", Table: "t", Cols: []string{"k", "v"}, Rows: [][]any{{int32(1), "a1"}}}}})
 	return seeds
+}
+
+var crashHugeT = TableDef{Name: "t", Cols: []ColDef{{"k", TInt}, {"v", TStr}}, Idx: []string{"skip", ""}}
+
+func crashHugeRows(from, n int) [][]any {
+	var rows [][]any
+	for i := from; i < from+n; i++ {
+		rows = append(rows, []any{int32(100 + i), bigStr(fmt.Sprintf("h%03d", i), 3800)})
+	}
+	return rows
 }
 
 // crashAlphabet returns the DML statements a transaction may issue; values are unique per (txn, op).
@@ -69,6 +84,15 @@ func crashAlphabet(seed *CrashSeed, txn int) map[string]*Stmt {
 		return &Stmt{Kind: "insert", Table: "t", Cols: []string{"k", "v"}, Rows: [][]any{{int32(k), v}}}
 	}
 	tag := fmt.Sprintf("%d", txn)
+	if strings.HasPrefix(seed.Name, "huge") {
+		kv := []string{"k", "v"}
+		return map[string]*Stmt{
+			"huge150": {Kind: "insert", Table: "t", Cols: kv, Rows: crashHugeRows(0, 150)}, // ~575 KB of log in one statement
+			"huge80a": {Kind: "insert", Table: "t", Cols: kv, Rows: crashHugeRows(0, 80)},
+			"huge80b": {Kind: "insert", Table: "t", Cols: kv, Rows: crashHugeRows(80, 80)},
+			"del1":    del(1),
+		}
+	}
 	if strings.HasPrefix(seed.Name, "small") {
 		return map[string]*Stmt{
 			"ins":     ins(10+txn, "n"+tag),
@@ -173,6 +197,16 @@ func glueBegin(h []HOp) []HOp { return h }
 // crashHistories enumerates the histories of a seed for a tier.
 func crashHistories(seed *CrashSeed, thorough bool) [][]HOp {
 	var out [][]HOp
+	if strings.HasPrefix(seed.Name, "huge") {
+		for _, p := range []crashProg{
+			{[]string{"huge150"}, "commit"}, {[]string{"huge150"}, "abort"},
+			{[]string{"huge80a", "huge80b"}, "commit"}, {[]string{"del1", "huge150"}, "commit"}, {[]string{"huge80a", "huge80b"}, "abort"},
+		} {
+			h := progOps(seed, 1, p)
+			out = append(out, h, append(append([]HOp{}, h...), HOp{Kind: "checkpoint"}))
+		}
+		return out
+	}
 	p1 := crashPrograms(seed, 1)
 	p2 := crashPrograms(seed, 2)
 	withCkpt := func(h []HOp) {
